@@ -249,6 +249,13 @@ def run(ctx):
                                 if any(strip_generics(cname(c)).endswith('Vec::is_empty') and 'output_vec' in origin(enc, c['args'][0]).fields for c in so_.calls) \
                                         and 'not' not in so_.flags:
                                     nonempty = nonempty or must_pass(enc, enc.term(x)['otherwise'], [h], seeds)
+                                # (`if self.output_vec.len() == 0 { resize(K) }`)
+                                cd_ = switch_condition(enc, enc.switch_info(x))
+                                if cd_[0] == 'cmp' and cd_[1] == 'Eq':
+                                    l_, r_ = origin(enc, cd_[2]), origin(enc, cd_[3])
+                                    if ('len' in l_.flags and 'output_vec' in l_.fields and r_.consts() == {0} and not r_.params()) or \
+                                            ('len' in r_.flags and 'output_vec' in r_.fields and l_.consts() == {0} and not l_.params()):
+                                        nonempty = nonempty or must_pass(enc, enc.term(x)['otherwise'], [h], seeds)
                         ok = ok and nonempty
                         extra += '; the buffer is not empty when the loop starts (positive resize wherever is_empty()): %s' % nonempty
                 if cls == 'end':
